@@ -73,6 +73,11 @@ func (c *Conn) Read(b []byte) (int, error) {
 // connection latency and throttling read throughput based on desired bandwidth
 // constraints.
 func (c *Conn) ReadFrom(r io.Reader) (int64, error) {
+	if c.Context != nil && c.Context.Shaping {
+		// A response that is being shaped has to pass through Write, which tracks the byte offset
+		// and performs the throttles and actions. (bufio.Writer hands large bodies to ReadFrom.)
+		return io.Copy(writerOnly{c}, r)
+	}
 	c.ronce.Do(c.sleepLatency)
 
 	var total int64
@@ -91,6 +96,11 @@ func (c *Conn) ReadFrom(r io.Reader) (int64, error) {
 			return total, err
 		}
 	}
+}
+
+// writerOnly hides the ReadFrom method of a Conn from io.Copy.
+type writerOnly struct {
+	io.Writer
 }
 
 // Close closes the connection.
